@@ -7,7 +7,13 @@ import (
 	_ "verif/internal/props/c03"
 	_ "verif/internal/props/c04"
 	_ "verif/internal/props/c05"
+	_ "verif/internal/props/c12"
+	_ "verif/internal/props/c13"
+	_ "verif/internal/props/c14"
 	_ "verif/internal/props/c15"
+	_ "verif/internal/props/c16"
+	_ "verif/internal/props/c17"
 	_ "verif/internal/props/c18"
+	_ "verif/internal/props/c19"
 	_ "verif/internal/props/c20"
 )
